@@ -945,6 +945,12 @@ def rule_act_size(rep, repo):
     rep.fail("R7", unit3, "score-raises", "raises %s" % e, loc=aq.loc(am))
 
 
+def _snapshot_metrics(m):
+  if isinstance(m, dict):
+    return {k: (list(v) if isinstance(v, list) else v) for k, v in m.items()}
+  return list(m) if isinstance(m, list) else m
+
+
 def rule_build_sequence(rep, repo):
   """R10: AutoQKHyperModel.build interpreted for two consecutive trials on
   one hyper-model (own __init__; quantize_model, the forgiving-factor target
@@ -976,7 +982,7 @@ def rule_build_sequence(rep, repo):
       return Mock("q_model_" + tag, {
           "tag": tag, "summary": lambda pe, a, k: None,
           "compile": lambda pe, a, k, tag=tag: compiled.__setitem__(
-              tag, k.get("metrics")),
+              tag, _snapshot_metrics(k.get("metrics"))),
           "get_layer": lambda pe, a, k: Mock("layer", {})})
     models = [qmodel("A"), qmodel("B")]
     queue = list(models)
@@ -999,11 +1005,27 @@ def rule_build_sequence(rep, repo):
         "frozen_layers": [], "extend_model_metrics": True,
         "quantize_model": lambda pe_, a, k: (queue.pop(0), None)})
     cfg = "build(trial A) then build(trial B), %s" % metrics_label
+    given = _snapshot_metrics(metrics)
     try:
       scores = []
       for _ in range(2):
         pe.call(pe.getattr(o, "build"), [Mock("hp", {})], {})
         scores.append(o.attrs.get("score"))
+      # the caller's metrics are not extended in place, and every trial is
+      # compiled with the caller's metrics plus its own two
+      def count(mm):
+        if isinstance(mm, dict):
+          return {k_: len(v_) if isinstance(v_, list) else 1
+                  for k_, v_ in mm.items()}
+        return len(mm) if isinstance(mm, list) else 1
+      rep.check(count(_snapshot_metrics(metrics)) == count(given) and
+                count(compiled.get("A")) == count(compiled.get("B")), "R10",
+                unit, "metrics-accumulate-over-trials",
+                "%s: the caller's metrics had %s entries and have %s after "
+                "two builds; trial A was compiled with %s, trial B with %s" %
+                (cfg, count(given), count(_snapshot_metrics(metrics)),
+                 count(compiled.get("A")), count(compiled.get("B"))),
+                loc=loc, instance=cfg)
       yt = Mock("y_true", {"shape": ShapeV((None, 10))})
       yp = Mock("y_pred", {"shape": ShapeV((None, 10))})
       for tag, sc in zip("AB", scores):
